@@ -17,6 +17,7 @@ class Fn:
         self.blocks = {}              # 'bb0' -> Block
         self.header_line = header_line
         self.lines = 0
+        self.debug = {}               # source variable name -> local (from `debug x => _N;`)
 
     def __repr__(self):
         return f"<Fn {self.name}>"
@@ -109,6 +110,10 @@ def parse_mir(text):
             continue
         s = line.strip()
         if not s or s.startswith("//"):
+            continue
+        dm = re.match(r"^debug (\w+) => (_\d+);$", s)
+        if dm and block is None:
+            cur.debug.setdefault(dm.group(1), dm.group(2))
             continue
         m = re.match(r"^let (?:mut )?(_\d+): (.+);$", s)
         if m and block is None:
